@@ -30,11 +30,11 @@ class Loop:
 
 class Contract:
   def __init__(s,key,view,cases,modifies=(),returns=None,source_of_post='',loops=None,ghost=None,property_ids=(),trusted=False,
-               sample=None, build=None, note='', bounded=None, standin_inputs=None, refute_pins=None):
+               sample=None, build=None, note='', bounded=None, standin_inputs=None, refute_pins=None, call_effect=None, native=None):
     s.key=key; s.file,s.qual=key.split('::'); s.view=view; s.cases=cases; s.modifies=list(modifies)
     s.returns=returns; s.source_of_post=source_of_post; s.loops=loops or {}; s.ghost=ghost or {}
     s.property_ids=tuple(property_ids); s.trusted=trusted; s.sample=sample; s.build=build; s.note=note
-    s.bounded=bounded; s.standin_inputs=standin_inputs; s.refute_pins=refute_pins
+    s.bounded=bounded; s.standin_inputs=standin_inputs; s.refute_pins=refute_pins; s.call_effect=call_effect; s.native=native
     s._reg=None
   def module(s,reg): return reg.module(s.file)
   def fn_ast(s,reg): return reg.module(s.file).function(s.qual)
@@ -117,10 +117,22 @@ def fn_hash(f):
   f2.body=strip_doc(f2)
   return hashlib.sha256(ast.dump(f2,include_attributes=False).encode()).hexdigest()
 
+class GenModule:
+  """captured generated source (bitstruct methods ...): behaves like a ModuleInfo whose functions are the captured FunctionDefs."""
+  def __init__(s,rel):
+    s.rel=rel; s.functions={}; s.classes={}; s.globals={}; s.fn_globals={}; s.src={}
+  def add(s,qual,src,globs):
+    t=ast.parse(src).body[0]; s.functions[qual]=t; s.fn_globals[qual]=globs; s.src[qual]=src
+  def function(s,qual):
+    if qual not in s.functions: raise ToolError(f"cannot extract {s.rel}::{qual}: not captured")
+    return s.functions[qual]
+  def ast_hash(s,qual): return fn_hash(s.function(qual))
+  def lines(s,qual): return (0,0)
+
 class Registry:
   def __init__(s,repo=REPO):
     s.repo=repo; s.contracts={}; s.modules={}; s.classes={}   # class name -> dict(file, slots, bases, exception)
-    s.handlers=[]; s.loop_handlers=[]; s.module_globals={}
+    s.handlers=[]; s.loop_handlers=[]; s.module_globals={}; s.gen_classes={}
   def add(s,c):
     c._reg=s; s.contracts[c.key]=c; return c
   def module(s,rel):
@@ -150,6 +162,8 @@ class Registry:
     if not info or not info.get('file'): return None
     return s.module(info['file']).classes.get(cls)
   def find_method(s,cls,name):
+    g=s.gen_classes.get(cls)
+    if g is not None: return g['methods'].get(name)
     n=s._cls_node(cls)
     if n is None: return None
     for b in n.body:
@@ -176,6 +190,8 @@ class Registry:
     return True
   def contract_for(s,name,mod):
     """name: 'Class.method' or 'func' (resolved in the class's / current module's file)."""
+    if '.' in name and name.split('.')[0] in s.gen_classes:
+      return s.contracts.get(f"{s.gen_classes[name.split('.')[0]]['file']}::{name}")
     if '.' in name:
       cls=name.split('.')[0]
       info=s.classes.get(cls)
